@@ -18,7 +18,7 @@ OPTIONS = {
 }
 BOUNDS = {
     "quick": {"raw_bytes": "all byte strings of length <= 7 (server, fresh) / <= 6 (client with a search and an extended operation outstanding)", "envelope": "30 L + L symbolic octets, L <= 5, followed by a valid message; whole, and cut after every octet of the envelope", "window": "2 symbolic octets at every interior offset of 11 seed messages, followed by a valid message", "three chunks": "every pair of cut positions over 4 two-message streams with symbolic contents"},
-    "thorough": {"raw_bytes": "length <= 10 / <= 8", "envelope": "L <= 7", "window": "2 and 3 symbolic octets at every interior offset of all 17 seeds"},
+    "thorough": {"raw_bytes": "length <= 9 / <= 8", "envelope": "L <= 7", "window": "2 and 3 symbolic octets at every interior offset of all 17 seeds"},
 }
 OUTSIDE = ["interiors longer than the envelope bound that are not seed-derived", "more than two chunks (C02 one-step lemma)"]
 ASSUMPTIONS = ["a protocol error ends the accounting (the property allows an error instead of a message)"]
@@ -30,7 +30,7 @@ def units(tier):
 
     quick = tier == "quick"
     us = []
-    for side, pre, nmax in (("server", "fresh", 7 if quick else 10), ("client", "search", 6 if quick else 8)):
+    for side, pre, nmax in (("server", "fresh", 7 if quick else 9), ("client", "search", 6 if quick else 8)):
         for n in range(0, nmax + 1):
             parts = common.raw_parts(n)
             for part in parts:
